@@ -129,6 +129,9 @@ Contexts == {
   C("let_body", "let\n  v = 1;\nin\n", "", 3),
   C("lam_body", "x: ", "", 3),
   C("call_arg", "f ", "", 0),
+  C("formals_body", "{ p, q }:\n", "", 3),
+  C("with_body_ml", "with p;\n", "", 3),
+  C("formals_with", "{ p }:\nwith p;\n", "", 3),
   C("paren", "(", ")", 3),
   C("with_body", "with p; ", "", 3),
   C("assert_body", "assert c; ", "", 3),
